@@ -1,13 +1,34 @@
 (* C18 — the bundled example store returns what was stored.  Property theorems only.
-   The reference model the example server is compared with (by the correspondence run: every reply of every generated
-   program, plus a final-state probe) is Redis.dprim under the connection model.  These theorems are about that
-   reference, for EVERY database and EVERY operation: they are what "equals the reply of a reference Redis model"
-   buys — values come back byte for byte, lists keep push/pop order, sorted sets are ordered by score with one entry
+   Two layers.  (0) Store.sprim is a function-by-function model of examples/go-redisd/server (the slice-backed List / Set /
+   ZSet with their loops, the map-backed Hash and record table); it is what the correspondence run executes beside the real
+   example server (every reply of every generated program, plus a final-state probe).  Theorem C18_store_refines_reference:
+   on every well-formed database and every call whose key is absent or holds the command's data type — the property's
+   "each key is used with one data type" — the store model computes EXACTLY the reply and the next database of the Redis
+   reference Redis.dprim; lifted to programs.  (1..) the theorems about that reference, for EVERY database and EVERY
+   operation: they are what "equals the reply of a reference Redis model" buys — values come back byte for byte, lists keep push/pop order, sorted sets are ordered by score with one entry
    per member, sets and hashes hold no duplicates, no empty container is left behind, and DEL / EXISTS / RENAME
    reflect exactly the keys written. *)
 From Coq Require Import String QArith.
-From GR Require Import Base Resp Handler Exec Redis RedisFacts.
+From GR Require Import Base Resp Handler Exec Redis RedisFacts Store StoreFacts.
 Open Scope Z_scope.
+
+(* (0) the model of the example store refines the reference *)
+Theorem C18_store_refines_reference : forall d c, wf_db d -> typed d c -> sprim d c = dprim d c.
+Proof. exact store_refines_reference. Qed.
+Print Assumptions C18_store_refines_reference.
+
+Theorem C18_store_programs_refine : forall cs d, wf_db d -> typed_program d cs -> run_with sprim d cs = run_with dprim d cs.
+Proof. exact store_program_refines. Qed.
+Print Assumptions C18_store_programs_refine.
+
+(* non-vacuity: a typed program over strings, a list, a set and a sorted set, run on the store model from the empty database *)
+Example C18_ex_store :
+  let prog := [HSet (B"s") (B"v") default_set_opt; HRPush (B"l") [B"a"; B"b"] false; HLPop (B"l") 1; HSAdd (B"t") [B"x"; B"x"; B"y"];
+               HZAdd (B"z") [(FNum (2 # 1), B"b"); (FNum (1 # 1), B"a"); (FNum (2 # 1), B"a")] default_zadd_opt;
+               HZRange (B"z") 0 (-1) default_zrange_opt; HSMembers (B"t"); HGet (B"s")] in
+  wf_db [] /\ typed_program [] prog /\
+  snd (run_with sprim [] prog) = [r_ok; r_int 2; r_bulk (B"a"); r_int 2; r_int 2; ok (RArr [bulk (B"a"); bulk (B"b")]); r_arr [B"x"; B"y"]; r_bulk (B"v")].
+Proof. split; [split; constructor|]. split; [|vm_compute; reflexivity]. cbn. unfold kind_ok. cbn. repeat split; discriminate || reflexivity || auto. Qed.
 
 (* (1) the invariant of every reachable database: keys unique; a hash / set / sorted set holds one entry per field /
    member; sorted sets have non-decreasing scores; no stored list, set, hash or sorted set is empty.  Preserved by
